@@ -186,6 +186,15 @@ class Design:
                 if is_sym(v):
                     if getattr(v, "is_const", False):
                         v = v.lo
+                    elif path is not None:
+                        # a derived clock / reset (driven combinationally): its value is decided by the path
+                        # condition; case-split on the feasible values (usually exactly one)
+                        sl = self.slot(t)
+                        same = sl.next is sl.curr
+                        v = path.concretize(to_sint(v))
+                        sl.curr = v
+                        if same:
+                            sl.next = v
                     else:
                         raise Unsupported(f"clock/reset signal {t.name} has a symbolic value")
                 out.append(int(v))
